@@ -29,11 +29,19 @@ mutual
     | nd :: rest => calm nd && calmL rest
 end
 
-/-- the variable an expression starts from is not a provider key (Django refuses names that begin with `_`) -/
+/-- names no template can use: Django refuses variables that begin with `_`; the marks of the model begin with `\x00` -/
+def internal (k : Str) : Bool :=
+  match k with
+  | c :: _ => c == '_' || c == '\x00'
+  | [] => false
+
+theorem internal_injectKey (key : Str) : internal (injectPrefix ++ key) = true := rfl
+
+/-- the variable an expression starts from is one a template can name -/
 def okExpr : Expr → Bool
   | .lit _ => true
   | .var [] => true
-  | .var (n :: _) => !startsWith injectPrefix n
+  | .var (n :: _) => !internal n
 
 mutual
   def okNames : Node → Bool
@@ -86,7 +94,7 @@ end
 /-! ### contexts that differ by provider keys only -/
 
 /-- every name a template can use resolves alike -/
-def SameVars (a b : Ctx) : Prop := ∀ k, startsWith injectPrefix k = false → ctxGet a k = ctxGet b k
+def SameVars (a b : Ctx) : Prop := ∀ k, internal k = false → ctxGet a k = ctxGet b k
 
 theorem sameVars_refl (a : Ctx) : SameVars a a := fun _ _ => rfl
 
@@ -94,7 +102,7 @@ theorem sameVars_push (a b : Ctx) (l : Layer) (h : SameVars a b) : SameVars (a +
   intro k hk
   rw [ctxGet_append_one, ctxGet_append_one, h k hk]
 
-theorem sameVars_push_inject (a b : Ctx) (k : Str) (v : Val) (hk : startsWith injectPrefix k = true) (h : SameVars a b) :
+theorem sameVars_push_inject (a b : Ctx) (k : Str) (v : Val) (hk : internal k = true) (h : SameVars a b) :
     SameVars (a ++ [[(k, v)]]) b := by
   intro x hx
   rw [ctxGet_append_one]
@@ -331,7 +339,7 @@ theorem model_calm (env : Env) : ∀ n,
             rw [hE]
             obtain ⟨k2, hbody⟩ := ihN body (ctx ++ [[(injectPrefix ++ key, .provRef w.nextId)]]) c0 (enterW w (evalKwargs ctx kwargs)) hp ho
               (ctxFree_push ctx _ hc (by simp [slotFreeKvs, slotFree]))
-              (sameVars_push_inject ctx c0 _ _ (startsWith_injectKey key) hs) (fresh_enterW w _ hf)
+              (sameVars_push_inject ctx c0 _ _ (internal_injectKey key) hs) (fresh_enterW w _ hf)
             have hsteps : (enterW w (evalKwargs ctx kwargs)).steps = w.steps + 1 := rfl
             rw [hbody, hsteps]
             rcases cNodes env.maxSteps n body c0 (w.steps + 1) with ⟨r, st2⟩
